@@ -17,7 +17,14 @@ pub fn run<T: Send + 'static, F: Future<Output = T> + 'static>(rt: Rt, watchdog:
     std::thread::Builder::new().stack_size(2 << 20).spawn(move || {
         let runtime = match rt {
             Rt::CurrentPaused => tokio::runtime::Builder::new_current_thread().enable_time().start_paused(true).build(),
-            Rt::Multi(w) => tokio::runtime::Builder::new_multi_thread().worker_threads(w).enable_time().build(),
+            Rt::Multi(w) => {
+                // the worker threads inject random delays at the library's hook sites (none / light / heavy, changing from run to run)
+                static RUNS: AtomicU64 = AtomicU64::new(0);
+                let r = RUNS.fetch_add(1, SeqCst);
+                let level = (r % 3) as u8;
+                tokio::runtime::Builder::new_multi_thread().worker_threads(w).enable_time()
+                    .on_thread_start(move || { static T: AtomicU64 = AtomicU64::new(1); crate::sched::enable_thread_chaos(level, r.wrapping_mul(0x9E3779B97F4A7C15) ^ T.fetch_add(1, SeqCst) << 17) }).build()
+            }
         }.expect("tokio runtime");
         let out = runtime.block_on(make());
         let _ = tx.send(out);
